@@ -58,8 +58,8 @@ TABLE_THEOREMS = [
 FACTORIZE_THEOREMS = [
     "Ffcx.IR.factorize_sound", "Ffcx.IR.accepted_closed", "Ffcx.IR.accepted_sum_operands",
     "Ffcx.IR.factorize_rejects", "Ffcx.IR.factorize_rejects_nonlinear", "Ffcx.IR.factorize_rejects_divisor",
-    "Ffcx.IR.factorize_rejects_sum_argfree", "Ffcx.IR.factorize_target_dropped_counterexample",
-    "Ffcx.IR.factorize_product_collision_counterexample", "Ffcx.IR.ratEnv_lawful", "Ffcx.IR.ratEnv_real",
+    "Ffcx.IR.accepted_targets", "Ffcx.IR.factorize_rejects_sum_argfree",
+    "Ffcx.IR.factorize_rejects_target_argfree", "Ffcx.IR.factorize_product_collision_counterexample", "Ffcx.IR.ratEnv_lawful", "Ffcx.IR.ratEnv_real",
 ]
 
 
@@ -490,6 +490,8 @@ def classify_exception(ex):
         return ("sumRank",)
     if isinstance(ex, RuntimeError) and "all summands to depend on the arguments" in msg:
         return ("sumArgFree",)
+    if isinstance(ex, RuntimeError) and "non-zero components to depend on the arguments" in msg:
+        return ("targetArgFree",)
     if isinstance(ex, AssertionError) and "Cannot divide by arguments" in msg:
         return ("divByArg",)
     if isinstance(ex, AssertionError) and "argument in condition" in msg:
